@@ -1,4 +1,5 @@
 ---- MODULE MC_TraceMkdir2 ----
 EXTENDS TraceMkdir2
 const_NoScn == [nodes |-> <<>>, firstFree |-> 5, paths |-> [p \in {"p1", "p2"} |-> <<>>]]
+const_NoNames == {}
 ====
